@@ -1,7 +1,14 @@
 #!/bin/bash
 # Full .vo build of the development (never -vos). Run from anywhere.
-set -e
+#   build.sh                 build everything, keep going past a broken file (make -k); exit code = make's
+#   build.sh <targets...>    build the given .vo targets with their dependencies (what ./check uses)
+#   build.sh --setup         as the first form but always exit 0: MANIFEST.setup_cmd only warms the
+#                            build; every check re-runs make for its own targets and reports a broken
+#                            proof itself, so a file of a not-yet-claimed property cannot block setup
 set +e
+setup=0
+if [ "$1" = "--setup" ]; then setup=1; shift; fi
+if [ $# -eq 0 ]; then set -- -k; fi
 cd "$(dirname "$0")"
 {
   echo "-Q theories LW"
@@ -19,4 +26,5 @@ timeout 2700 make -j16 "$@" > $log 2>&1
 rc=$?
 grep -v "^COQDEP\|^COQC\|^CLEAN\|Nothing to be done\|^make\|is up to date" $log || true
 rm -f $log
+if [ $setup = 1 ]; then [ $rc = 0 ] || echo "build.sh --setup: make exited $rc (see messages above); continuing"; exit 0; fi
 exit $rc
